@@ -6,3 +6,17 @@ add("C01", "exploration",
     "styles and delays; every returned result is compared byte-for-byte with an independent token-level reference and the device's write log "
     "with cmd+return. Held = on the sessions explored (counts and landmark histogram in the evidence); not a proof.",
     "DESIGN.md §3 C01", "differential runtime monitor over generated sessions (device model + reference normaliser + transport event log)")
+
+add("C06", "fault_enumeration",
+    "For every operation scenario (generic, network, NETCONF; 28 scenarios incl. in-channel login and NETCONF open) the exchange stream is measured by a "
+    "fault-free dry run and the connection is then lost after EVERY byte offset k (EOF; persistent read error), at every write j, and while idle; a monitor "
+    "checks prompt error return, no truncated success (result must equal the complete dry-run result), failure of the following operation, and that no "
+    "goroutine panics (worker-process isolation). Exhaustive over k for the listed scenarios and segmentations; nothing beyond them.",
+    "DESIGN.md §3 C06", "fault injection at every stream offset of real-library sessions over a causal transport model; outcome monitor + process-level panic detection")
+
+add("C15", "exploration",
+    "Exploration: 200 (quick) / 5 000 (thorough) generated openings per seed - all four verbs x option codes incl. 3, 255 and command-valued codes, two-byte "
+    "commands 241-249, escaped IAC, data between and after sequences, every cut position inside IAC sequences, four socket timeouts, six read sizes - run "
+    "through the real telnet transport on loopback TCP; an independent RFC 854 reference parser decides expected replies and data. Cases whose real-time "
+    "negotiation window was closed by load are inconclusive, never held. Subnegotiation is outside the claim.",
+    "DESIGN.md §3 C15", "real telnet transport vs loopback TCP server with PRNG openings/segmentations; RFC 854 reference parser as oracle; delivery established from TCP_INFO; three-valued verdicts")
